@@ -2,7 +2,7 @@
 From Coq Require Import NArith List.
 Import ListNotations.
 Require Import Consts Nor Geom Store.
-Require MRecon Mgr MgrP MgrSim Confine.
+Require MRecon Mgr MgrP MgrSim Confine V1 OrigConf.
 Open Scope N_scope.
 
 (* parity blocks and matrix rows of the byte-level model: whatever index, block size, capacity or offset is passed,
@@ -74,6 +74,18 @@ Theorem c08_start_update_confined : forall m sz cnt d d' u, 28 <= Mgr.m_size m -
   exists news, Mgr.dlog d' = news ++ Mgr.dlog d /\ Forall (Confine.in_pair m (Mgr.dblk d) (Mgr.u_fw u) (Mgr.u_par u)) news.
 Proof. exact Confine.start_update_confined. Qed.
 
+(* the single-erasure back-end (flash-algo-new without the matrix feature; V1.v1_write with orig = false is its write_segment_internal,
+   used for received fragments and for the fragment rebuilt by repair_step): with the geometry start_update accepts for that back-end
+   (both counts at most MAX_SEGMENTS, both fragment tables fit behind the data region) a fragment write - whatever it returns,
+   whatever fault is armed, for every index, payload and device state - erases nothing and programs at most two ranges, both
+   inside the slot the fragment index belongs to *)
+Theorem c08_naive_write_confined : forall m u idx1 payload plen rlen d,
+  V1.v_tf u <= MAX_SEGMENTS -> V1.v_tp u <= MAX_SEGMENTS -> DATA_REGION_OFFSET <= Mgr.m_size m ->
+  V1.v_tf u * plen <= Mgr.m_size m - DATA_REGION_OFFSET -> V1.v_tp u * plen <= Mgr.m_size m - DATA_REGION_OFFSET ->
+  let '(d', _, _) := V1.v1_write false m u idx1 payload plen rlen d in
+  exists news, Mgr.dlog d' = news ++ Mgr.dlog d /\ (length news <= 2)%nat /\ Forall (OrigConf.prog_in m (OrigConf.frag_slot u idx1)) news.
+Proof. exact OrigConf.naive_write_in_slot. Qed.
+
 Print Assumptions c08_parity_puts_confined.
 Print Assumptions c08_handle_segment_confined.
 Print Assumptions c08_delivery_confined.
@@ -86,3 +98,4 @@ Print Assumptions c08_parity_layout.
 Print Assumptions c08_fw_layout.
 Print Assumptions c08_read_program_same.
 Print Assumptions c08_read_program_disjoint.
+Print Assumptions c08_naive_write_confined.
